@@ -1,4 +1,158 @@
-// unit `yata` -- HEADER TO BE WRITTEN
+// unit `yata` -- the conflict resolution of the YATA integration (yrs/src/block.rs): `Item::detect_conflict(&self) -> bool` and
+// `Item::resolve_conflict(&mut self, blocks: &mut BlockStore)`, the two functions `TransactionMut::integrate_item` calls to find
+// the position of a new item among the items that were inserted concurrently at the same place.
+// Named by C01 (mechanism "YATA integration: origin/right-origin + client-id tie break") and C04 (mechanism "conflict scan
+// between origin and right origin").  KERNEL ONLY: what IS per-call is stated as a contract of the real code for ALL lists and
+// items; what needs more than one call is stated as pure theorems over the contract's specification (L1, L2, L3 below).  NO
+// claim of convergence in general is made (see "WHAT IS AND IS NOT IMPLIED").
+//
+// THE VIEW.  `resolve_conflict` READS the list through pointers and writes only `self.left` (last statement).  The new item is
+// `me = *old(self)`; the list is L = rights(first_conflict(me)) = [o, o.right, o.right.right, ...] where `o` is the first
+// conflicting item: `me.left.right`, or (no left, `parent_sub` = key) the LEFT-MOST item of the chain of `parent.map[key]`, or
+// `parent.start`.  Each member is seen as `Node { id, len, origin, right_origin, home }` with `home` = the id of the item
+// `blocks.get_item(origin)` returns (None: no origin / no such Item block); `me` as `Me { client, origin, right_origin, right }`
+// (`right` = id of `me.right`).  Over s = nodes(L), m = me_of(me), ALL predicates are statements about POSITIONS in L:
+//     pos_of(s, id)            first position whose item has that id (|s| if none)
+//     right_ix(s, m)           position of the right neighbour (|s| if me.right is None or not a member of L)
+//     origin_pos(s, j)         position of the item that holds s[j]'s origin (|s| if it is not a member of L)
+//     same_origin / lower / twin / open_case (m, c)    c.origin == me.origin, and then: c.client < me.client / not lower and same
+//                              right origin / not lower and different right origin      [THE TIE-BREAK, a function of (c, me)]
+//     foreign(s, m, j)         another origin, and it is NOT among s[0..=j]  (it lies LEFT of the list, i.e. at or before me's
+//                              origin in document order -- "origin crossing" --, or nowhere)
+//     ends_scan(s, m, j)       twin(m, s[j]) || foreign(s, m, j)
+//     scan_end(s, m)  =: e     the FIRST j < right_ix with ends_scan, else right_ix           (least index with a pointwise property)
+//     wants_left(s, m, j, c)   lower(m, s[j]) || (another origin && origin_pos(s, j) < c): seen from a new item standing at
+//                              position c (= directly before s[c]), item j belongs LEFT of it
+//     closed(s, m, c, e)       no item in [c, e) wants to be left of position c
+//     cut_at(s, m, e)          the LEAST c in [0, e] with closed(c, e);    yata_cut(s, m) =: c = cut_at(s, m, scan_end(s, m))
+//     place(L, left0, c)       the left neighbour that goes with position c: left0 (the incoming one) for c == 0, else L[c-1]
+//     pulls(s, m, k)           wants_left(s, m, k, cut_at(s, m, k)): item k wants to be left of the position chosen for s[0..k)
+//
+// CONTRACT of `resolve_conflict` (requires H0-H2 below; e, c, r = scan_end, yata_cut, right_ix):
+//   (P1) PLACEMENT     0 <= c <= e <= r <= |L|  and  final(self).left == place(L, old(self).left, c): the incoming left or a member
+//                      of L strictly before the right neighbour; with no right neighbour in L the scan may run to the end of L.
+//   (P2) TIE-BREAK among the scanned items c = s[j] with c.origin == me.origin (p2_tie_break)
+//          lower client id                                 ==> c is LEFT of me (j < c), whatever the right origins
+//          client id not lower, SAME right origin  (j < r) ==> c is RIGHT of me, and the scan ENDS there (c <= e <= j)
+//          client id not lower, DIFFERENT right origin     ==> c is RIGHT of me UNLESS a LATER scanned item pulls:
+//                                                              j < c  <==>  exists k in (j, e): pulls(s, m, k)
+//        [derived from the code, `lemma_pull_rule`: in general  j < c <==> some k in [j, e) pulls.  So for equal origin AND equal
+//         right origin the order is by client id (the rule that makes two replicas agree); for different right origins "lower
+//         client id goes left" still holds unconditionally, but "higher client id goes right" only provisionally: it is
+//         overridden when the scan, which goes on, meets an item that must be left of me -- a same-origin item with a lower client
+//         id, or an item whose origin is left of the position chosen so far.  The new left neighbour is ALWAYS an item that pulls
+//         (`lemma_left_neighbour_pulls`), never a same-origin item with a client id that is not lower.]
+//   (P3) ORIGIN CROSSING (p3_origin_crossing)
+//          j < r and foreign(j)                            ==> the scan ends at j at the latest, me is placed BEFORE s[j]  (c <= e <= j)
+//          j < e and another origin                        ==> origin_pos(j) <= j and (origin_pos(j) < c <==> j < c): a scanned item
+//                                                              is on the SAME SIDE of me as its origin
+//   EXACT (p_exact)    e is the first scan-ending position (or r); closed(c, e) and no c' < c is closed: me gets the LEFT-MOST position,
+//                      from the incoming left on, right of which nobody (up to e) wants to be left of it.  The clauses determine
+//                      (e, c) uniquely (`lemma_scan_end_unique`, `lemma_cut_unique`).
+//   (P5) TOTALITY / FRAME   terminates (structural `decreases o` on the finite chains), `parent.as_branch().unwrap()` cannot panic
+//                      (H0), `*final(self) == Item { left: .., ..*old(self) }`, `*final(blocks) == *old(blocks)`.
+// CONTRACT of `detect_conflict`:
+//   (P4) r == !glued(self), glued := (left is Some(l) && l.right and self.right are the same item (both None, or equal ids))
+//                      || (no left && right is Some(r) && r.left is None).   `lemma_glued_is_noop`: for a glued item the contract of
+//                      resolve_conflict yields position 0 = the incoming left, so the guard in integrate_item loses nothing.
+// STEP LEVEL (R18 statement regions of the same source text, each with a contract of its own, so that an edit fails a contract
+//   clause of real code and not only a spliced invariant): `yata_first_conflict` (r == first_conflict(this)), `yata_chain_step` (body
+//   of the walk to the left-most chain item), `yata_scan_init`, `yata_scan_step` (body of the scan loop: "goes on iff k < scan_end;
+//   then the state in front of item k + 1 is: items_before_origin = s[0..k], conflicting_items = s[cut_at(k+1)..k], left =
+//   place(cut_at(k+1)); else k == scan_end and left == place(yata_cut)").
+//
+// PURE THEOREMS over the specification (no code; `b` = the base list view, x / y = the Nodes of two new items)
+//   (L1) `theorem_l1_determinism`: (e, c) are a function of me's (client, origin, right origin, right id) and of the SEQUENCE of
+//        (id, len, origin, right origin) of L -- of nothing else (contents, tombstones, addresses, the rest of the store) -- given H3:
+//        the store lookup is containment (home(c) == id of the member whose [clock, clock + len) holds c.origin, if any).  Without
+//        H3: a function of the sequence of (id, origin, right origin, origin_pos) (`lemma_determinism`).
+//   (L2) same origin AND same right origin (hence same neighbours), x.client < y.client, ANY base list b:
+//        `theorem_l2_same_origins_commute`: in both delivery orders x ends up BEFORE y (from P2 applied twice: delivered second, y
+//        reaches x -- nothing before x ends y's scan because it did not end x's -- and x is `lower`; delivered second, x meets y
+//        as a `twin` and stops).  `theorem_l2_same_list` (+ l2_fresh: no base item has its origin in x or y): both orders give
+//        the SAME LIST:  b.insert(c1, x).insert(c2, y) == b.insert(d1, y).insert(d2, x).
+//   (L3) same origin, DIFFERENT right origins, ANY right neighbours, ANY base list b (+ freshness), x.client < y.client:
+//        `theorem_l3_same_list`: both delivery orders give the SAME LIST.  (Delivered second, x passes y -- an `open_case` item that
+//        never pulls -- and its position is the old one, shifted if it was right of y; delivered second, y either stops before x,
+//        or reaches x, is pulled behind it, and from there on tracks its old position + 1: `lemma_track_nonpuller` /
+//        `lemma_track_puller`, `lemma_l3_x_le_y`: scanning the same items the lower client's position is never right of the
+//        higher client's.)   The relative order is NOT simply "lower client first" here: it is x before y iff y's scan of the
+//        base list reaches x's position (scan_end(b, y) >= yata_cut(b, x)).
+//   BASE-LIST ASSUMPTIONS of L2 / L3: both items are integrated into the same list view b from the same first conflicting item
+//        (same origin => same `left`), b already holds the block splits both integrations perform (get_item_clean_end(origin) /
+//        get_item_clean_start(right_origin) run BEFORE resolve_conflict and are not in this unit), inserting an item does not
+//        change the `home` of the others (true when no split happens in between), freshness (no base item depends on x / y).
+//   test vectors: `example_two_siblings`, `example_no_interleaving`, `example_origin_crossing`.
+//
+// WHAT IS AND IS NOT IMPLIED
+//   C04: (P1) is "the new item lies between its neighbours": not before its left neighbour, not after its right neighbour -- in THIS
+//        replica's list at integration time.  (P3) + `example_no_interleaving` is the per-call core of "the elements of one
+//        multi-element insertion keep their order / are not interleaved": an item whose origin is left of the scanned range ends
+//        the scan, an item whose origin is in the range follows its origin.  NOT implied: that the neighbours are still VISIBLE
+//        neighbours on other replicas, anything about deletions, and that `integrate_item` links the item where `self.left` says
+//        (the pointer surgery after resolve_conflict is not in this unit).
+//   C01: (L1) is "the outcome of ONE integration depends only on the operations in the list and their order"; (L2) + (L3) are the
+//        commutation of TWO concurrent insertions after the same origin.  NOT implied: commutation for DIFFERENT origins.  For an
+//        ARBITRARY base list it is false: list [ax, ay, g] with ay.origin = ax, ay.client < x.client, g.origin = ay, g.client <
+//        y.client; x = (origin ax, right g), y = (origin ay, no right): x-then-y gives [ax, ay, y, x, g] (y's scan ends at x, whose
+//        origin ax is left of y's range), y-then-x gives [ax, ay, x, g, y].  That list is not reachable (x's author saw g, hence
+//        ay, so ax and g were not adjacent): the different-origin case needs the reachability invariants of the list (origin before
+//        right origin, neighbours adjacent at creation, causal delivery), which are not per-call.  Also NOT implied: more than two
+//        items, block splitting, deletions, map entries' tombstoning -- CONVERGENCE IN GENERAL IS NOT CLAIMED.
+//
+// ------------------------------------------------------------------------------------------------------------------
+// LOWERING (rule R15 of DESIGN.md 3.2) AND STAND-IN TYPES (everything not listed is extracted verbatim from /repo)
+//   ItemPtr      real: `struct ItemPtr(NonNull<Item>)`, Deref<Target = Item>.  here: `type ItemPtr = &'static Item` (read-only
+//                lowering; 'static because the real type carries no lifetime, so every signature stays verbatim).  ASSUMPTION A5:
+//                the pointees are alive, not mutated during the call, and following `.right` / `.left` terminates (here: by
+//                construction of an inductive value; the loops terminate by structural `decreases o`).  `self` is a SEPARATE
+//                value (`&mut Item`): the new item is not a member of the list yet.  An immutable value cannot be doubly linked:
+//                `.left` and `.right` are two independent chains; the scan follows only `.right`, the walk to the left-most chain
+//                item only `.left`; `detect_conflict` reads one link of each neighbour.
+//   Item         sliced to `id, len, left, right, origin, right_origin, parent, parent_sub` (`len` only for H3 / L1).  DROPPED:
+//                content, redone, info.  `Item::id` is the real accessor.
+//   ItemPtr AS A HASH KEY (checked in /repo): `#[derive(Clone, Copy, Hash)] struct ItemPtr(NonNull<Item>)` hashes the ADDRESS, but
+//                `impl PartialEq for ItemPtr` compares `self.id() == other.id()`, the block ID.  The two agree -- and a
+//                HashSet<ItemPtr> is a set of item IDENTITIES -- exactly when no two live Items share an id (then id, address and,
+//                in the lowered model, the value [which includes its `.right` chain, hence its position] determine each other).
+//                Modelled as: `impl PartialEq for Item` = the REAL body of ItemPtr::eq (extracted), eq_spec = equality of ids, used
+//                by `self.right == Some(item)` and `left.right != self.right`; `Hash` a never-executed stub; TRUSTED axiom A4'
+//                `obeys_key_model::<&'static Item>()` (std HashSet<ItemPtr> behaves as the mathematical set of its keys); the
+//                identity condition is the heap assumption H1 + H2, required by every function that uses a set.
+//   Branch       sliced to `start`, `map`.  BranchPtr = `&'static Branch`.  `TypePtr` is the REAL enum, `TypePtr::as_branch` the real body.
+//   BlockStore   ABSTRACT: trait `StoreApi` with an uninterpreted `lookup(id) -> Option<ItemPtr>`; `get_item` is a bodiless trait
+//                method returning it (SUB `fn resolve_conflict` -> `fn resolve_conflict<B: StoreApi>`, `blocks: &mut BlockStore` ->
+//                `blocks: &mut B`, logged).  The contract holds for EVERY lookup function; what the proof needs of it is H2.
+//   ClientID     real: `ClientID(NonZeroU64)` holding `value | MASK` with derived PartialOrd (all values carry the same top bits, so
+//                the order is the order of the yjs values); here `ClientID(pub u64)` compared by value (PartialOrdSpecImpl).
+//   Str          opaque stand-in for `Arc<str>` (SUB, logged).
+//   closure      `|id| blocks.get_item(id)` gets a typed header and `ensures vx_r == blocks.lookup(*id)` (@closure; body untouched).
+//
+// HEAP ASSUMPTIONS (stated as `requires` via `heap_ok`; facts about the states integrate_item calls the function in)
+//   H0  `self.parent` is `TypePtr::Branch(_)`      [integrate_item resolves `item.parent` to a Branch before the call and returns
+//                                                  early through integrate_gc otherwise]
+//   H1  the ids of the members of L are pairwise distinct    [every member of a branch's list is a block of the store; a store
+//                                                  holds one block per (client, clock): ClientBlockList is sorted, unit blockstore]
+//   H2  if `get_item(c.origin)` for a member c returns an item with the id of a member, it IS that member
+//                                                  [`.right` pointers and `get_item` both point at the Box the store owns]
+//   H3  (only L1) `get_item(id)` is the Item block whose clock range contains id   [BlockStore::get_item = get_block(id) -- the
+//                                                  client's ClientBlockList::find_index(id.clock), unit blockstore -- + as_item_mut]
+//   A5  finite, acyclic, unmutated chains (see ItemPtr)
+//
+// TRUSTED (module vx_trusted, listed by the trust scanner): `axiom_item_ptr_key_model` (A4', see above), `axiom_str_key_model`
+//   (A4: Arc<str> is a lawful HashMap key), `Option::<&T>::copied` (A2, std: "Maps an Option<&T> to an Option<T> by copying"), the
+//   never-executed `impl Hash for Item` stub.  vstd's own specifications of HashSet::{new, insert, contains, clear},
+//   HashMap::get, Option::{unwrap, as_ref, and_then, is_some}, PartialEq / PartialOrd on Option.  No assume / admit.
+//
+// NOT IN THIS UNIT: the rest of integrate_item (repair of left / right from the origins, block splitting, the pointer surgery that
+//   links the item at the chosen position, map entry tombstoning, parent length bookkeeping), `BlockStore::get_item` itself.
+//
+// FINDINGS: none -- under H0-H2 the pinned code satisfies (P1)-(P5) and the exactness clauses for every list and item.  Looked
+//   at on purpose: `parent_sub` chains (the scan starts at the left-most chain item: covered by first_conflict), a right neighbour
+//   that is not reachable from `o` (the scan then runs to a scan-ending item or the end of L; (P1) says so), tombstones (never
+//   read), items of the SAME client (client id "not lower": twin -> me goes before it, open_case -> provisional right).
+//   OBSERVATION (no defect on reachable states): Hash (address) and Eq (id) of ItemPtr are different relations; the sets are
+//   correct only because ids are unique per live Item (H1 / H2).
 #![allow(unused_imports, unused_variables, unused_mut, dead_code, unused_parens, unused_braces, unused_assignments)]
 use vstd::prelude::*;
 use std::collections::HashMap;
@@ -1912,11 +2066,9 @@ impl Item {
     }
 @*/
 
-//   (3) the BODY of the scan loop
-// The BODY of the scan loop once more, lifted on its own (R18 statement region; same source text): one scan step as a function
-// with a contract over positions (`break` is spelled `return (false, left, o)`, falling through returns (true, left, o); `self`
-// is the parameter `this`).  An edit of the body then fails a CONTRACT clause of real code and not only the invariant spliced
-// into `resolve_conflict`.
+//   (3) the BODY of the scan loop: one scan step as a function with a contract over positions (`break` is spelled
+//       `return (false, left, o)`, falling through returns (true, left, o); `self` is the parameter `this`; the ghost parameters
+//       name the list view, the position k of `item` in it and the position chosen so far)
 /*@extract yrs/src/block.rs | impl Item | region resolve_conflict | stmt=stmt:while ~ items_before_origin >> stmt:if | stmtnth=1 | upto=stmt:while ~ items_before_origin >> stmt:assign o | tail=(true, left, o) | label=yata_scan_step | rules=SUB(from=self.;;to=this.) SUB(from=break;;to=return (false, left, o))
 @header
     fn yata_scan_step<B: StoreApi>(this: &Item, blocks: &mut B, item: ItemPtr, mut o: Option<ItemPtr>, mut left: Option<ItemPtr>, conflicting_items: &mut HashSet<ItemPtr>, items_before_origin: &mut HashSet<ItemPtr>, Ghost(vx_l): Ghost<Seq<ItemPtr>>, Ghost(vx_k): Ghost<int>, Ghost(vx_cs): Ghost<int>) -> (r: (bool, Option<ItemPtr>, Option<ItemPtr>))
